@@ -7,13 +7,42 @@ verus! {
 pub mod nom {
     use vstd::prelude::*;
 
-    pub enum Needed {
+    /// nom::Needed. The enum is always called `NeededE` in specifications.
+    pub enum NeededE {
         Unknown,
         Size(core::num::NonZeroUsize),
     }
+//#if needed_mod
+    // Units whose extracted code passes `nom::Needed::Size` as a FUNCTION VALUE
+    // (`needed.map_or(nom::Needed::Unknown, nom::Needed::Size)` in dlt_message_intern): Verus
+    // does not support datatype constructors as function values, so in those units the path
+    // `nom::Needed` resolves to a module offering the two constructors as a constant and a
+    // function with exact contracts. The extracted text is unchanged.
+    #[allow(non_snake_case, non_upper_case_globals)]
+    pub mod Needed {
+        use vstd::prelude::*;
+        pub const Unknown: super::NeededE = super::NeededE::Unknown;
+        pub fn Size(n: core::num::NonZeroUsize) -> (r: super::NeededE)
+            ensures r == super::NeededE::Size(n),
+        {
+            super::NeededE::Size(n)
+        }
+    }
+//#else
+    pub use self::NeededE as Needed;
+//#endif
+
+    /// nom::ToUsize (count arguments of `take`)
+    pub trait ToUsize: Sized {
+        spec fn to_usize_spec(self) -> usize;
+    }
+    impl ToUsize for usize { open spec fn to_usize_spec(self) -> usize { self } }
+    impl ToUsize for u8 { open spec fn to_usize_spec(self) -> usize { self as usize } }
+    impl ToUsize for u16 { open spec fn to_usize_spec(self) -> usize { self as usize } }
+    impl ToUsize for u32 { open spec fn to_usize_spec(self) -> usize { self as usize } }
 
     pub enum Err<E> {
-        Incomplete(Needed),
+        Incomplete(NeededE),
         Error(E),
         Failure(E),
     }
@@ -37,10 +66,10 @@ pub mod nom {
             /// streaming `take(count)`: Ok((i[count..], i[..count])) if |i| >= count,
             /// else Incomplete(Size(count - |i|)); never Error/Failure.
             #[verifier::external_body]
-            pub fn take<E>(count: usize) -> (f: impl Fn(&[u8]) -> IResult<&[u8], &[u8], E>)
+            pub fn take<C: ToUsize, E>(count: C) -> (f: impl Fn(&[u8]) -> IResult<&[u8], &[u8], E>)
                 ensures
                     forall|i: &[u8]| #[trigger] f.requires((i,)),
-                    forall|i: &[u8], r: IResult<&[u8], &[u8], E>| #[trigger] f.ensures((i,), r) ==> spec_take(count, i@, r),
+                    forall|i: &[u8], r: IResult<&[u8], &[u8], E>| #[trigger] f.ensures((i,), r) ==> spec_take(count.to_usize_spec(), i@, r),
             {
                 move |i: &[u8]| unimplemented!()
             }
@@ -71,8 +100,8 @@ pub mod spec {
 
     pub open spec fn needed_ok<E>(e: Err<E>, lo: int, hi: int) -> bool {
         match e {
-            Err::Incomplete(Needed::Size(n)) => lo <= n@ <= hi,
-            Err::Incomplete(Needed::Unknown) => true,
+            Err::Incomplete(NeededE::Size(n)) => lo <= n@ <= hi,
+            Err::Incomplete(NeededE::Unknown) => true,
             _ => false,
         }
     }
@@ -85,7 +114,7 @@ pub mod spec {
             }
         } else {
             match r {
-                Err(Err::Incomplete(Needed::Size(n))) => n@ == count - i.len(),
+                Err(Err::Incomplete(NeededE::Size(n))) => n@ == count - i.len(),
                 _ => false,
             }
         }
@@ -118,7 +147,7 @@ pub mod spec {
             }
         } else {
             match r {
-                Err(Err::Incomplete(Needed::Size(x))) => x@ == 1,
+                Err(Err::Incomplete(NeededE::Size(x))) => x@ == 1,
                 _ => false,
             }
         }
